@@ -6,18 +6,27 @@
 (* replayed here: TLC computes the demanded outcomes and reports the events    *)
 (* that differ, and whether the as-coded model with the deviation              *)
 (* EnvKeptOnAbort reproduces the recorded history exactly.                     *)
+(* Round 7: the file also holds recorded NEST CASES (top-level invocations,    *)
+(* one invocation of the driver running a random program of nested             *)
+(* invocations, top-level invocations; one record per step); TLC computes the  *)
+(* demanded outcome of every step, the as-is outcome and the outcome of the    *)
+(* model in which a nested invocation runs in its caller's environment.        *)
 EXTENDS Naturals, Sequences, FiniteSets, TLC, Json, IOUtils
 NoDev == {}
-DevKept == {"EnvKeptOnAbort"}
+DevKept == {"EnvKeptOnAbort", "NestedInvokeSharesLoadedModules"}    \* on top of the code as it is
 Ideal == INSTANCE ContextInvoke WITH Dev <- NoDev
 Kept == INSTANCE ContextInvoke WITH Dev <- DevKept
-DevAsIs == {"LoadDataTableMutableWithinPage"}
+DevAsIs == {"LoadDataTableMutableWithinPage", "NestedInvokeSharesLoadedModules"}
 AsIs == INSTANCE ContextInvoke WITH Dev <- DevAsIs
-Hists == JsonDeserialize(IOEnv.TRACE_FILE)
+DevShared == DevAsIs \cup {"NestedSharesCallerEnv"}
+Shared == INSTANCE ContextInvoke WITH Dev <- DevShared
+Data == JsonDeserialize(IOEnv.TRACE_FILE)
+Hists == Data.hists
+Progs == Data.progs       \* [case |-> [pre, prog, post], got |-> [pre, prog, post]]
 KindsOf(h) == [i \in 1..Len(h) |-> h[i].k]
 VARIABLE n
 TInit == n = 1
-TNext == n <= Len(Hists) /\ n' = n + 1
+TNext == n <= Len(Hists) + Len(Progs) /\ n' = n + 1
 TSpec == TInit /\ [][TNext]_n
 Verdict(i) ==
   LET h == Hists[i]
@@ -25,5 +34,12 @@ Verdict(i) ==
   IN \E exp \in {Ideal!Outcomes(ks)} : \E kp \in {Kept!Outcomes(ks)} :
        PrintT(<<"CASE", ToJson([i |-> i, bad |-> {j \in 1..Len(h) : h[j] # exp[j]}, exp |-> exp, asis |-> AsIs!Outcomes(ks),
                                  law |-> Ideal!MeetsDemand(ks), keptExplains |-> (kp = h /\ kp # exp)])>>)
-Emit == (n <= Len(Hists)) => Verdict(n)
+NVerdict(j) ==
+  LET c == Progs[j].case
+      got == Progs[j].got
+  IN \E exp \in {Ideal!CaseOutcomes(c)} : \E ai \in {AsIs!CaseOutcomes(c)} : \E sh \in {Shared!CaseOutcomes(c)} :
+       PrintT(<<"NCASE", ToJson([i |-> j, ok |-> (got = exp), exp |-> exp, asis |-> ai, shared |-> sh,
+                                  law |-> Ideal!CaseMeetsDemand(c), asisExplains |-> (got = ai /\ ai # exp),
+                                  sharedExplains |-> (got = sh /\ sh # ai)])>>)
+Emit == IF n <= Len(Hists) THEN Verdict(n) ELSE (n <= Len(Hists) + Len(Progs)) => NVerdict(n - Len(Hists))
 =============================================================================
